@@ -132,7 +132,8 @@ Registered(x) == (x.ph = "synced") \/ (x.ph = "linked" /\ ~x.sync /\ x.mode = "n
 OnAttach(p, e) ==
     LET mids == \E i \in 1..Len(p.cons) : p.cons[i].sync /\ p.cons[i].ph \in {"att", "linked"}
         x == [c |-> e.c, sync |-> e.sync, ph |-> "att", pos |-> {}, view |-> {}, aep |-> p.ep,
-              mids |-> mids, mode |-> "norm", lpos |-> 0, nev |-> 0]
+              mids |-> mids, mode |-> "norm", lpos |-> 0, nev |-> 0,
+              dpos |-> {}]          \* candidate positions if the F10c deviation was taken at synced
     IN IF CIdx(p, e.c) # 0 THEN Fail(p, "harness: consumer attached twice")
        ELSE [p EXCEPT !.cons = Append(@, x)]
 
@@ -179,48 +180,61 @@ OnLinked(p, i) ==
     ELSE IF ~LinkedSent(p) THEN Fail(p, "S1: linked before the lane sent linked")
     ELSE [p EXCEPT !.cons[i].ph = "linked", !.cons[i].pos = 0..Len(p.N), !.cons[i].lpos = Len(p.N)]
 
+\* the candidate positions after reading event op: gap-free (strict) or in order only (loose)
+Strict(p, S, op) == {j \in 1..Len(p.N) : IsEv(p, j) /\ p.N[j].n.op = op /\ \E q \in S : NextEv(p, q) = j}
+Loose(p, S, op)  == {j \in 1..Len(p.N) : IsEv(p, j) /\ p.N[j].n.op = op /\ \E q \in S : q < j}
+
 OnEvent(p, i, op) ==
     LET x == p.cons[i]
-        strict == {j \in 1..Len(p.N) : IsEv(p, j) /\ p.N[j].n.op = op /\ \E q \in x.pos : NextEv(p, q) = j}
-        loose  == {j \in 1..Len(p.N) : IsEv(p, j) /\ p.N[j].n.op = op /\ \E q \in x.pos : q < j}
-        upd(S) == [p EXCEPT !.cons[i].pos = S, !.cons[i].view = ApplyOp(@, op), !.cons[i].nev = @ + 1]
+        strict == Strict(p, x.pos, op)
+        dstrict == Strict(p, x.dpos, op)
+        loose  == Loose(p, x.pos, op)
+        upd(S, D) == [p EXCEPT !.cons[i].pos = S, !.cons[i].dpos = D, !.cons[i].view = ApplyOp(@, op),
+                               !.cons[i].nev = @ + 1]
     IN
     IF x.ph \notin {"linked", "synced"} THEN Fail(p, "S1: event before linked / after unlinked")
     ELSE IF Registered(x) THEN
-        IF strict # {} THEN upd(strict)
+        IF strict # {} THEN upd(strict, dstrict)
+        \* KF F10c (see OnSynced): the cut chosen at synced does not work out, the deviation does
+        ELSE IF dstrict # {} THEN Deviate(upd(dstrict, {}), "F10c")
         \* KF F10b: a value-downlink consumer WITHOUT SYNC that attached after the link was
         \* established is parked with the consumers awaiting synced and misses events
         ELSE IF loose # {} /\ "F10b" \in p.enabled /\ p.kind = "value" /\ ~x.sync /\ Late(p, x)
-            THEN Deviate([upd(loose) EXCEPT !.cons[i].mode = "kfb"], "F10b")
+            THEN Deviate([upd(loose, {}) EXCEPT !.cons[i].mode = "kfb"], "F10b")
         ELSE IF loose # {} THEN Fail(p, "S3: a registered consumer missed an event (gap)")
         ELSE Fail(p, "S2: event not sent by the lane, repeated or out of order")
-    ELSE IF loose # {} THEN upd(loose)
+    ELSE IF loose # {} THEN upd(loose, {})
     ELSE Fail(p, "S2: event not sent by the lane, repeated or out of order")
 
 OnSynced(p, i) ==
     LET x == p.cons[i]
         cuts == {c \in 0..Len(p.N) : (\E q \in x.pos : q <= c) /\ ViewAt(p, c) = x.view}
+        \* KF F10c: a map-downlink SYNC consumer that attached while another consumer's sync was
+        \* outstanding is told synced with the other's (for it partial) snapshot; it then simply
+        \* continues from where it was (its own snapshot arrives later as ordinary events)
+        f10c == "F10c" \in p.enabled /\ p.kind = "map" /\ x.sync /\ x.mids
     IN
     IF x.ph = "synced" THEN p                                        \* repeated synced: no-op
     ELSE IF x.ph # "linked" THEN Fail(p, "S1: synced before linked / after unlinked")
     ELSE IF ~SyncedSent(p) THEN Fail(p, "S4: synced before the lane sent synced")
     ELSE IF ~x.sync /\ x.mode = "norm" THEN p                        \* not asked for: tolerated no-op
-    ELSE IF cuts # {} THEN [p EXCEPT !.cons[i].ph = "synced", !.cons[i].pos = cuts, !.cons[i].mode = "norm"]
-    \* KF F10c: a map-downlink SYNC consumer that attached while another consumer's sync was
-    \* outstanding is told synced with the other's (for it partial) snapshot
-    ELSE IF "F10c" \in p.enabled /\ p.kind = "map" /\ x.sync /\ x.mids
-        THEN Deviate([p EXCEPT !.cons[i].ph = "synced"], "F10c")
+    ELSE IF cuts # {} THEN [p EXCEPT !.cons[i].ph = "synced", !.cons[i].pos = cuts, !.cons[i].mode = "norm",
+                                     !.cons[i].dpos = IF f10c THEN x.pos ELSE {}]
+    ELSE IF f10c THEN Deviate([p EXCEPT !.cons[i].ph = "synced"], "F10c")
     ELSE Fail(p, "S4: synced while holding a state the lane never had")
 
 \* everything the lane sent up to position `upto` has been read by a registered consumer
-Complete(p, x, upto) == \E q \in x.pos : LET j == NextEv(p, q) IN j = 0 \/ j > upto
+CompleteFrom(p, S, upto) == \E q \in S : LET j == NextEv(p, q) IN j = 0 \/ j > upto
+Complete(p, x, upto) == CompleteFrom(p, x.pos, upto)
 
 OnUnlinked(p, i) ==
     LET x == p.cons[i] IN
     IF x.ph \notin {"att", "linked", "synced"} THEN Fail(p, "S6: unlinked twice")
     ELSE IF p.closed = "no" THEN Fail(p, "S6: unlinked although the link was not closed")
     ELSE IF p.closed = "unlinked" /\ Registered(x) /\ ~Complete(p, x, p.cpos)
-        THEN IF "F10b" \in p.enabled /\ p.kind = "value" /\ ~x.sync /\ Late(p, x)     \* KF F10b, see OnEvent
+        THEN IF CompleteFrom(p, x.dpos, p.cpos)                                          \* KF F10c, see OnSynced
+               THEN Deviate([p EXCEPT !.cons[i].ph = "unlinked"], "F10c")
+             ELSE IF "F10b" \in p.enabled /\ p.kind = "value" /\ ~x.sync /\ Late(p, x)     \* KF F10b, see OnEvent
                THEN Deviate([p EXCEPT !.cons[i].ph = "unlinked"], "F10b")
                ELSE Fail(p, "S3: unlinked before all events of the lane were delivered")
     ELSE [p EXCEPT !.cons[i].ph = "unlinked"]
@@ -258,13 +272,21 @@ SessionDebt(p, x) ==
     ELSE ""
 
 IsF10b(p, x) == "F10b" \in p.enabled /\ p.kind = "value" /\ ~x.sync /\ Late(p, x) /\ x.ph = "linked"
+Undelivered == "S3: events of the lane never delivered"
+
+\* the deviation (if any) that explains consumer x's unmet obligation
+Excuse(p, x) ==
+    IF SessionDebt(p, x) # Undelivered THEN ""
+    ELSE IF x.ph = "synced" /\ CompleteFrom(p, x.dpos, Len(p.N)) THEN "F10c"
+    ELSE IF IsF10b(p, x) THEN "F10b"
+    ELSE ""
 
 CheckSessions(p) ==
     LET bad == {i \in 1..Len(p.cons) : SessionDebt(p, p.cons[i]) # ""}
-        kfs == {i \in bad : IsF10b(p, p.cons[i]) /\ SessionDebt(p, p.cons[i]) = "S3: events of the lane never delivered"}
+        unexcused == {i \in bad : Excuse(p, p.cons[i]) = ""}
     IN IF bad = {} THEN p
-       ELSE IF bad = kfs THEN Deviate(p, "F10b")
-       ELSE Fail(p, SessionDebt(p, p.cons[Min(bad \ kfs)]))
+       ELSE IF unexcused = {} THEN [p EXCEPT !.kf = @ \cup {Excuse(p, p.cons[i]) : i \in bad}]
+       ELSE Fail(p, SessionDebt(p, p.cons[Min(unexcused)]))
 
 -----------------------------------------------------------------------------
 (* quiescence: commands                                                    *)
